@@ -33,8 +33,8 @@ def main():
     by_prop = {}
 
     for x in res.get('results', []):
-        d = by_prop.setdefault(x['prop'], {'seeds_detected': [], 'seeds_missed': [], 'signatures': []})
-        (d['seeds_detected'] if x['exit'] == 1 else d['seeds_missed']).append(x['seed'])
+        d = by_prop.setdefault(x['prop'], {'seeds_detected': [], 'seeds_missed': [], 'seeds_harness_error': [], 'signatures': []})
+        (d['seeds_detected'] if x['exit'] == 1 else d['seeds_missed'] if x['exit'] == 0 else d['seeds_harness_error']).append(x['seed'])
         d['signatures'] = sorted(set(d['signatures']) | set(x['signatures']))
 
     meta['verif'] = {
@@ -42,7 +42,7 @@ def main():
         'ran': f'tools/try_mutant.py {name} {" ".join(props)} --seeds=0,1,2 (scratch worktree of /repo HEAD '
                f'{subprocess.run(["git", "-C", "/repo", "log", "--format=%h", "-1"], stdout=subprocess.PIPE, text=True).stdout.strip()}, quick tier, VERIF_REPO)',
         'checks': by_prop,
-        'detected': any(d['seeds_detected'] and not d['seeds_missed'] for d in by_prop.values()),
+        'detected': any(d['seeds_detected'] and not d['seeds_missed'] and not d['seeds_harness_error'] for d in by_prop.values()),
         'date': time.strftime('%Y-%m-%d'),
     }
 
